@@ -388,10 +388,10 @@ def scale_is_largest_magnitude(ctx, rule='input-normalised-to-unit-magnitude'):
     (locals inlined) and evaluated with its maxCoeff() leaves set to magnitudes between 1e-150 and 1e150: it must return their
     maximum every time."""
     n = 0
-    for cls in ('Spectra::TridiagEigen', 'Spectra::UpperHessenbergEigen'):
+    for cls in ('Spectra::TridiagEigen', 'Spectra::UpperHessenbergEigen', 'Spectra::UpperHessenbergSchur'):
         seen = set()
         for fn in ctx.F.concrete():
-            if fn.cls != cls or not fn.cfg or fn.mangled in seen or fn.name != 'compute':
+            if fn.cls != cls or not fn.cfg or fn.mangled in seen or fn.name != 'compute' or not fn.params:
                 continue
             seen.add(fn.mangled)
             inst = '%s::compute' % cls.replace('Spectra::', '')
@@ -405,7 +405,14 @@ def scale_is_largest_magnitude(ctx, rule='input-normalised-to-unit-magnitude'):
                     if r is not None and r['k'] == 'DeclRefExpr' and 'var' in r and ('P', fn.locals[fn.params[0]]['name']) in atoms(sym(fn, ops[0], inline=False)):
                         divisors[r['var']] = fn.locals[r['var']]['name']
             if not divisors:
-                raise AnalysisBroken('%s: no division of the input by a scale found' % fn.qname)
+                # sibling disagreement: the other small decompositions (and Eigen's RealSchur, from which this class is adapted)
+                # normalise; this one runs its sweeps on the raw input
+                n += 1
+                ctx.fail(rule, inst, fn.qname,
+                         'the input is never divided by its largest magnitude (the sibling decompositions are): the sweeps compare eps times products of two entries and '
+                         'form products of three, which underflow for overall scalings well inside the range whose squares are representable (1e-150 in double) -- deflation and '
+                         'the start row of the Francis step are then decided on denormal garbage and a wrong factorization is returned without an exception')
+                continue
             for v, nm in sorted(divisors.items()):
                 init = [d['init'] for x in fn.walk() if x['k'] == 'DeclStmt' for d in x['decls'] if d.get('var') == v and 'init' in d]
                 if len(init) != 1:
@@ -450,14 +457,26 @@ def scale_is_largest_magnitude(ctx, rule='input-normalised-to-unit-magnitude'):
                     if got != max(vals) and bad is None:
                         bad = (vals, got)
                 n += 1
+                # what was divided is multiplied back: on every normal path from the division to the exit a result is scaled by the same variable
+                backs = [x for x in fn.walk() if x['k'] in ('CompoundAssignOperator', 'CXXOperatorCallExpr') and x.get('op') == '*=' and
+                         any(y['k'] == 'DeclRefExpr' and y.get('var') == v for y in fn.walk((fn.call_args(x)[-1] if x['k'] == 'CXXOperatorCallExpr' else fn.nodes[x['c'][1]])['id']))]
+                dvs = [x for x in fn.walk() if x['k'] in ('BinaryOperator', 'CXXOperatorCallExpr') and x.get('op') == '/' and
+                       any(y['k'] == 'DeclRefExpr' and y.get('var') == v for y in fn.walk((fn.call_args(x)[-1] if x['k'] == 'CXXOperatorCallExpr' else fn.nodes[x['c'][1]])['id']))]
+                bids = set(b['id'] for b in backs)
+                starts = [fn.pos_of(d_) for d_ in dvs if fn.pos_of(d_)]
+                hit = paths.search(fn, starts, stop=lambda n_: n_['id'] in bids, target=lambda n_: n_['k'] == 'ReturnStmt', exit_is_target=lambda b: True, normal_only=True) if starts else None
+                if not backs or hit is not None:
+                    bad = bad or ((), None)
+                    ctx.fail(rule, '%s/%s/scaled-back' % (inst, nm), fn.qname, 'a normal path from the division by `%s` to the exit does not multiply a result back by it' % nm)
+                    continue
                 ctx.check(bad is None, rule, '%s/%s' % (inst, nm), fn.qname,
                           'the divisor `%s` equals the largest of its %d magnitude operand(s) on the whole grid 1e-150 .. 1e150: the sweeps run on a matrix of largest magnitude one' % (nm, len(leaves))
                           if bad is None else
                           'with largest magnitudes %s the input is divided by %g, not by %g: the sweeps then run on an un-normalised matrix and the non-homogeneous deflation tests '
                           '(eps * sqrt(|d_i| + |d_i+1|), absolute floors) are no longer relative to it -- sub-diagonal entries of a small-norm matrix are discarded although they are not negligible' %
                           (bad[0], bad[1], max(bad[0])))
-    if n < 2:
-        raise AnalysisBroken('only %d input scalings analysed (TridiagEigen and UpperHessenbergEigen confirmed)' % n)
+    if n < 3:
+        raise AnalysisBroken('only %d input scalings analysed (TridiagEigen, UpperHessenbergEigen and UpperHessenbergSchur confirmed)' % n)
 
 
 def zero_test_covers_hessenberg(ctx, rule='zero-matrix-test-covers-all-entries'):
